@@ -94,7 +94,7 @@ def create(case, d):
                 ref[:] = FILLFUNCS[case['fillfunc']](grid)
                 kw = dict(fillfunc=FILLFUNCS[case['fillfunc']])
             else:
-                ref[:] = case.get('fill', 0) if case.get('fill') is not None else 0
+                ref[:] = case.get('fill', 0) if case.get('fill') is not None else 0     # np.full semantics (keeps -0.0)
                 kw = dict(fill=case.get('fill'))
             images = [image(ref)]
             shp = shape[0] if (case.get('intshape') and len(shape) == 1) else shape
